@@ -46,6 +46,28 @@ static const char *regs[] = {
 };
 #endif
 
+// A 32 bit encoding whose operands also fit the 16 bit row of the same
+// mnemonic is what the assembler emits for the ".l" suffix, without the
+// suffix it would pick the 16 bit row.
+static const char *long_suffix(int n, int type16, int fits)
+{
+  int k;
+
+  if (fits == 0) { return ""; }
+
+  for (k = 0; table_epiphany[k].instr != NULL; k++)
+  {
+    if (table_epiphany[k].size == 16 &&
+        table_epiphany[k].type == type16 &&
+        strcmp(table_epiphany[k].instr, table_epiphany[n].instr) == 0)
+    {
+      return ".l";
+    }
+  }
+
+  return "";
+}
+
 int disasm_epiphany(
   Memory *memory,
   uint32_t address,
@@ -63,6 +85,7 @@ int disasm_epiphany(
   //int count = 1;
   int rd, rn, rm;
   int n, m;
+  const char *suffix;
 
   instruction[0] = 0;
 
@@ -103,7 +126,8 @@ int disasm_epiphany(
         case OP_BRANCH_32:
           offset = ((int32_t)opcode32) >> 8;
           offset = offset << 1;
-          snprintf(instruction, length, "%s 0x%x  (offset=%d)", table_epiphany[n].instr, address + offset, offset);
+          suffix = long_suffix(n, OP_BRANCH_16, offset >= -256 && offset <= 255);
+          snprintf(instruction, length, "%s%s 0x%x  (offset=%d)", table_epiphany[n].instr, suffix, address + offset, offset);
           return 4;
         case OP_DISP_IMM3_16:
           imm = (opcode16 >> 7) & 0x7;
@@ -119,39 +143,42 @@ int disasm_epiphany(
         case OP_DISP_IMM11_32:
           imm = ((opcode32 >> 7) & 0x7) | (((opcode32 >> 16) & 0x7f) << 3);
           imm = ((opcode32 & 0x01000000) == 0) ? imm : -imm;
+          suffix = long_suffix(n, OP_DISP_IMM3_16, rd < 8 && rn < 8 && imm >= 0 && imm <= 7);
           if (imm != 0)
           {
-            snprintf(instruction, length, "%s r%d, [r%d, #%d]", table_epiphany[n].instr, rd, rn, imm);
+            snprintf(instruction, length, "%s%s r%d, [r%d, #%d]", table_epiphany[n].instr, suffix, rd, rn, imm);
           }
             else
           {
-            snprintf(instruction, length, "%s r%d, [r%d]", table_epiphany[n].instr, rd, rn);
+            snprintf(instruction, length, "%s%s r%d, [r%d]", table_epiphany[n].instr, suffix, rd, rn);
           }
           return 4;
         case OP_INDEX_16:
           snprintf(instruction, length, "%s r%d, [r%d, r%d]", table_epiphany[n].instr, rd, rn, rm);
           return 2;
         case OP_INDEX_32:
+          suffix = long_suffix(n, OP_INDEX_16, rd < 8 && rn < 8 && rm < 8 && (opcode32 & 0x00100000) == 0);
           if ((opcode32 & 0x00100000) == 0)
           {
-            snprintf(instruction, length, "%s r%d, [r%d, r%d]", table_epiphany[n].instr, rd, rn, rm);
+            snprintf(instruction, length, "%s%s r%d, [r%d, r%d]", table_epiphany[n].instr, suffix, rd, rn, rm);
           }
             else
           {
-            snprintf(instruction, length, "%s r%d, [r%d, -r%d]", table_epiphany[n].instr, rd, rn, rm);
+            snprintf(instruction, length, "%s%s r%d, [r%d, -r%d]", table_epiphany[n].instr, suffix, rd, rn, rm);
           }
           return 4;
         case OP_POST_MOD_16:
           snprintf(instruction, length, "%s r%d, [r%d], r%d", table_epiphany[n].instr, rd, rn, rm);
           return 2;
         case OP_POST_MOD_32:
+          suffix = long_suffix(n, OP_POST_MOD_16, rd < 8 && rn < 8 && rm < 8 && (opcode32 & 0x00100000) == 0);
           if ((opcode32 & 0x00100000) == 0)
           {
-            snprintf(instruction, length, "%s r%d, [r%d], r%d", table_epiphany[n].instr, rd, rn, rm);
+            snprintf(instruction, length, "%s%s r%d, [r%d], r%d", table_epiphany[n].instr, suffix, rd, rn, rm);
           }
             else
           {
-            snprintf(instruction, length, "%s r%d, [r%d], -r%d", table_epiphany[n].instr, rd, rn, rm);
+            snprintf(instruction, length, "%s%s r%d, [r%d], -r%d", table_epiphany[n].instr, suffix, rd, rn, rm);
           }
           return 4;
         case OP_POST_MOD_DISP_32:
@@ -166,7 +193,8 @@ int disasm_epiphany(
         case OP_REG_IMM_32:
           imm = ((opcode32 >> 5) & 0xff);
           imm |= ((opcode32 >> 20) & 0xff) << 8;
-          snprintf(instruction, length, "%s r%d, #0x%04x", table_epiphany[n].instr, rd, imm);
+          suffix = long_suffix(n, OP_REG_IMM_16, rd < 8 && imm <= 0xff);
+          snprintf(instruction, length, "%s%s r%d, #0x%04x", table_epiphany[n].instr, suffix, rd, imm);
           return 4;
         case OP_REG_2_IMM_16:
           imm = ((opcode32 >> 7) & 0x7);
@@ -177,7 +205,8 @@ int disasm_epiphany(
           imm = ((opcode32 >> 7) & 0x7);
           imm |= ((opcode32 >> 16) & 0xff) << 3;
           if ((imm & 0x400) != 0) { imm = imm | 0xfffff800; }
-          snprintf(instruction, length, "%s r%d, r%d, #%d", table_epiphany[n].instr, rd, rn, imm);
+          suffix = long_suffix(n, OP_REG_2_IMM_16, rd < 8 && rn < 8 && imm >= -4 && imm <= 3);
+          snprintf(instruction, length, "%s%s r%d, r%d, #%d", table_epiphany[n].instr, suffix, rd, rn, imm);
           return 4;
         case OP_REG_2_IMM5_16:
           imm = ((opcode32 >> 5) & 0x1f);
@@ -185,31 +214,36 @@ int disasm_epiphany(
           return 2;
         case OP_REG_2_IMM5_32:
           imm = ((opcode32 >> 5) & 0x1f);
-          snprintf(instruction, length, "%s r%d, r%d, #%d", table_epiphany[n].instr, rd, rn, imm);
+          suffix = long_suffix(n, OP_REG_2_IMM5_16, rd < 8 && rn < 8);
+          snprintf(instruction, length, "%s%s r%d, r%d, #%d", table_epiphany[n].instr, suffix, rd, rn, imm);
           return 4;
         case OP_REG_2_ZERO_16:
           snprintf(instruction, length, "%s r%d, r%d", table_epiphany[n].instr, rd, rn);
           return 2;
         case OP_REG_2_ZERO_32:
-          snprintf(instruction, length, "%s r%d, r%d", table_epiphany[n].instr, rd, rn);
+          suffix = long_suffix(n, OP_REG_2_ZERO_16, rd < 8 && rn < 8);
+          snprintf(instruction, length, "%s%s r%d, r%d", table_epiphany[n].instr, suffix, rd, rn);
           return 4;
         case OP_REG_3_16:
           snprintf(instruction, length, "%s r%d, r%d, r%d", table_epiphany[n].instr, rd, rn, rm);
           return 2;
         case OP_REG_3_32:
-          snprintf(instruction, length, "%s r%d, r%d, r%d", table_epiphany[n].instr, rd, rn, rm);
+          suffix = long_suffix(n, OP_REG_3_16, rd < 8 && rn < 8 && rm < 8);
+          snprintf(instruction, length, "%s%s r%d, r%d, r%d", table_epiphany[n].instr, suffix, rd, rn, rm);
           return 4;
         case OP_REG_2_16:
           snprintf(instruction, length, "%s r%d, r%d", table_epiphany[n].instr, rd, rn);
           return 2;
         case OP_REG_2_32:
-          snprintf(instruction, length, "%s r%d, r%d", table_epiphany[n].instr, rd, rn);
+          suffix = long_suffix(n, OP_REG_2_16, rd < 8 && rn < 8);
+          snprintf(instruction, length, "%s%s r%d, r%d", table_epiphany[n].instr, suffix, rd, rn);
           return 4;
         case OP_REG_1_16:
           snprintf(instruction, length, "%s r%d", table_epiphany[n].instr, rn);
           return 2;
         case OP_REG_1_32:
-          snprintf(instruction, length, "%s r%d", table_epiphany[n].instr, rn);
+          suffix = long_suffix(n, OP_REG_1_16, rn < 8);
+          snprintf(instruction, length, "%s%s r%d", table_epiphany[n].instr, suffix, rn);
           return 4;
         case OP_NUM6_16:
           imm = opcode32 >> 10;
@@ -232,14 +266,16 @@ int disasm_epiphany(
         case OP_SPECIAL_RN_32:
           m = (opcode32 >> 20) & 0x3;
           m = m + 4;
+          suffix = long_suffix(n, OP_SPECIAL_RN_16, rd < 8 && rn < 8 && m == 4);
           special = (0xf0000 + (rn * 4)) | (m << 8);
-          snprintf(instruction, length, "%s 0x%05x, r%d", table_epiphany[n].instr, special, rd);
+          snprintf(instruction, length, "%s%s 0x%05x, r%d", table_epiphany[n].instr, suffix, special, rd);
           return 4;
         case OP_RD_SPECIAL_32:
           m = (opcode32 >> 20) & 0x3;
           m = m + 4;
+          suffix = long_suffix(n, OP_RD_SPECIAL_16, rd < 8 && rn < 8 && m == 4);
           special = (0xf0000 + (rn * 4)) | (m << 8);
-          snprintf(instruction, length, "%s r%d, 0x%05x", table_epiphany[n].instr, rd, special);
+          snprintf(instruction, length, "%s%s r%d, 0x%05x", table_epiphany[n].instr, suffix, rd, special);
           return 4;
         default:
           break;
